@@ -68,10 +68,10 @@ open Parser
     checked decoder) -/
 def StoreWFOrEmpty (s : Store) : Prop := StoreWF s ∨ s = .array []
 
-/-- KERNEL FACT (not yet proved here; belongs to the Store/BitmapStore library): replaying any run list
+/-- Kernel fact (statement; **proved** as `runStore_wf` in `Lemmas/CodecKernel.lean` from
+    `Store.insertRange_spec` and `Container.ensureCorrectStore_spec`): replaying any run list
     through `Store::insert_range` from `Store::with_capacity(_)` and normalising with `ensure_correct_store`
-    gives a well-formed store, or the empty array when there was no run.  Checked at run time by the driver
-    (`wf=` / `!WF`) on every decoded stream. -/
+    gives a well-formed store, or the empty array when there was no run. -/
 def Kernel.runStore_wf : Prop :=
   ∀ (cap : Nat) (runs : List (Nat × Nat)) (st : Store),
     replayRuns (Store.withCapacity cap) runs = .ok st →
